@@ -1,7 +1,7 @@
 #!/bin/bash
 # tools/runall.sh [quick|thorough]  — every claimed check once on /repo's working tree; one summary line each.
 tier="${1:-quick}"
-cd /verif
+cd "$(cd "$(dirname "${BASH_SOURCE[0]}")/.." && pwd)"
 for p in $(python3 -c "import json;print(' '.join(c['property_id'] for c in json.load(open('MANIFEST.json'))['checks']))"); do
   s=$(date +%s); out=$(bin/check $p $tier 2>&1); code=$?; e=$(( $(date +%s) - s ))
   echo "$p exit=$code ${e}s $(echo "$out" | grep -c '^KNOWN-FINDING') known; $(echo "$out" | grep -E '^vcheck: [0-9]+ simulated' | sed 's/vcheck: //') $(echo "$out" | grep -m1 '^  key:')"
